@@ -42,7 +42,7 @@ BODIES = [
     ("errors+data", {"data": {"thing": None, "things": []}, "errors": [E1]}),
     ("errors-only", {"errors": [E1, {"message": "two"}]}),
     ("neither", {"extensions": {}}),
-    ("array", [1]),
+    ("array", [1]), ("empty-array", []), ("json-string", "ok"), ("json-number", 42),
     ("nonjson", None),
 ]
 STATUSES = [200, 201, 299, 199, 300, 404, 500]
@@ -51,6 +51,10 @@ DRIVER = r'''
 import asyncio, importlib, json, sys
 import httpx
 pkgname, is_async, cases = sys.argv[1], sys.argv[2] == "1", json.load(open(sys.argv[3]))
+extra = {}
+if len(sys.argv) > 5 and sys.argv[5] == "rec":
+    from vh.props.rec_tracer import RecTracer
+    extra["tracer"] = RecTracer()
 pkg = importlib.import_module(pkgname)
 cur = {}
 def handler(request):
@@ -77,7 +81,7 @@ def expect_validate(resname, data):
         return {"ok": False, "type": type(e).__name__}
 if is_async:
     async def go():
-        client = pkg.Client(url="http://verif.test/graphql", http_client=httpx.AsyncClient(transport=httpx.MockTransport(handler)))
+        client = pkg.Client(url="http://verif.test/graphql", http_client=httpx.AsyncClient(transport=httpx.MockTransport(handler)), **extra)
         for st, raw in cases:
             cur["st"], cur["raw"] = st, raw
             for m, kw, res in METHODS:
@@ -87,7 +91,7 @@ if is_async:
                     out.append(classify(exc=e))
     asyncio.run(go())
 else:
-    client = pkg.Client(url="http://verif.test/graphql", http_client=httpx.Client(transport=httpx.MockTransport(handler)))
+    client = pkg.Client(url="http://verif.test/graphql", http_client=httpx.Client(transport=httpx.MockTransport(handler)), **extra)
     for st, raw in cases:
         cur["st"], cur["raw"] = st, raw
         for m, kw, res in METHODS:
@@ -127,7 +131,8 @@ def run(ctx):
                     ask[f"{i}:{res}"] = (res, sx_json(r[0][1]))
         with open(os.path.join(tmp, "ask.json"), "w") as f:
             json.dump(ask, f)
-        env = dict(os.environ, PYTHONPATH=f"{repo}:{tmp}", PYTHONDONTWRITEBYTECODE="1")
+        harness = os.path.dirname(os.path.dirname(os.path.dirname(os.path.abspath(__file__))))
+        env = dict(os.environ, PYTHONPATH=f"{repo}:{tmp}:{harness}", PYTHONDONTWRITEBYTECODE="1")
         bad = 0
         for is_async in (False, True):
             for otel in (False, True):
@@ -142,44 +147,45 @@ def run(ctx):
                 if g.returncode != 0 or not os.path.isdir(os.path.join(tmp, name)):
                     run.broken("C12 methods: generation failed", g.stdout.decode(errors="replace")[-1500:])
                     return
-                p = subprocess.run(["/venv/bin/python", "driver.py", name, "1" if is_async else "0", "cases.json", "ask.json"],
-                                   cwd=tmp, env=env, stdout=subprocess.PIPE, stderr=subprocess.PIPE, timeout=600)
-                if p.returncode != 0:
-                    run.broken("C12 methods: driver failed", p.stderr.decode(errors="replace")[-1500:])
-                    return
-                res = json.loads(p.stdout)
-                out, val = res["out"], res["val"]
-                k = 0
-                for i, ((st, raw), r) in enumerate(zip(cases, mres)):
-                    kind = r[0][0]
-                    for resname in ("GetThing", "ListThings"):
-                        o = out[k]
-                        k += 1
-                        run.count()
-                        run.dist("method_outcome", f"{kind}")
-                        if kind == "data":
-                            v = val[f"{i}:{resname}"]
-                            exp = ({"kind": "return", "type": resname, "dump": v["dump"]} if v["ok"]
-                                   else {"kind": "raise", "type": v["type"], "from_pkg": False})
-                        elif kind == "http":
-                            exp = {"kind": "raise", "type": "GraphQLClientHttpError", "from_pkg": True, "status": st}
-                        elif kind == "invalid":
-                            exp = {"kind": "raise", "type": "GraphQLClientInvalidResponseError", "from_pkg": True}
-                        elif kind == "multi":
-                            exp = {"kind": "raise", "type": "GraphQLClientGraphQLMultiError", "from_pkg": True,
-                                   "messages": [sx_json(g0[0]) for g0 in r[0][1]], "data": sx_json(r[0][2])}
-                        else:
-                            continue
-                        if o != exp:
-                            bad += 1
-                            if bad <= 4:
-                                # property failure when the package returned something else than the validated data,
-                                # or returned at all when get_data must raise
-                                run.violation(
-                                    f"generated {name}.Client method for {resname}: status {st} body {str(raw)[:120]}: expected {exp}, got {o}",
-                                    {"package": name, "status": st, "body": raw, "operation": resname, "expected": exp, "observed": o})
-                        if kind == "data" and exp["kind"] == "return":
-                            run.nontrivial_case(("method", st, raw, resname))
+                for tracer in (["none", "rec"] if otel else ["none"]):
+                    p = subprocess.run(["/venv/bin/python", "driver.py", name, "1" if is_async else "0", "cases.json", "ask.json", tracer],
+                                       cwd=tmp, env=env, stdout=subprocess.PIPE, stderr=subprocess.PIPE, timeout=600)
+                    if p.returncode != 0:
+                        run.broken("C12 methods: driver failed", p.stderr.decode(errors="replace")[-1500:])
+                        return
+                    res = json.loads(p.stdout)
+                    out, val = res["out"], res["val"]
+                    k = 0
+                    for i, ((st, raw), r) in enumerate(zip(cases, mres)):
+                        kind = r[0][0]
+                        for resname in ("GetThing", "ListThings"):
+                            o = out[k]
+                            k += 1
+                            run.count()
+                            run.dist("method_outcome", f"{kind}")
+                            if kind == "data":
+                                v = val[f"{i}:{resname}"]
+                                exp = ({"kind": "return", "type": resname, "dump": v["dump"]} if v["ok"]
+                                       else {"kind": "raise", "type": v["type"], "from_pkg": False})
+                            elif kind == "http":
+                                exp = {"kind": "raise", "type": "GraphQLClientHttpError", "from_pkg": True, "status": st}
+                            elif kind == "invalid":
+                                exp = {"kind": "raise", "type": "GraphQLClientInvalidResponseError", "from_pkg": True}
+                            elif kind == "multi":
+                                exp = {"kind": "raise", "type": "GraphQLClientGraphQLMultiError", "from_pkg": True,
+                                       "messages": [sx_json(g0[0]) for g0 in r[0][1]], "data": sx_json(r[0][2])}
+                            else:
+                                continue
+                            if o != exp:
+                                bad += 1
+                                if bad <= 4:
+                                    # property failure when the package returned something else than the validated data,
+                                    # or returned at all when get_data must raise
+                                    run.violation(
+                                        f"generated {name}.Client (tracer={tracer}) method for {resname}: status {st} body {str(raw)[:120]}: expected {exp}, got {o}",
+                                        {"package": name, "tracer": tracer, "status": st, "body": raw, "operation": resname, "expected": exp, "observed": o})
+                            if kind == "data" and exp["kind"] == "return":
+                                run.nontrivial_case(("method", st, raw, resname))
         run.extra["method_cases_per_package"] = len(cases) * 2
         run.extra["method_disagreements"] = bad
         run.sample({"generated_method": "c12pkg_sp.Client.get_thing", "status": 200, "body": cases[0][1],
